@@ -3633,8 +3633,10 @@ theorem rejectCurrent_out (e4 : Engine) (id : Nat) (resolution : Resolution) (x 
   obtain ⟨e5, r5⟩ := z
   simp only [] at h5 sv5 ⊢
   split
-  · exact ⟨h5, sv5⟩
   · exact ⟨Outcome.of_big h5, sv5⟩
+  · split
+    · exact ⟨Outcome.of_big h5, sv5⟩
+    · exact ⟨h5, sv5⟩
 
 theorem acquireIdFor_result (e : Engine) (id : Nat) (o : Op) (ho : e.op? id = some o) :
     (e.acquireIdFor id).2 = .ok ∨ (e.acquireIdFor id).2 = .err "InternalStateError" := by
